@@ -10,7 +10,7 @@ use crate::model::crdt::proj_s;
 use crate::simkit::runner::{Property, RunCtx, RunReport, Tier};
 use crate::simkit::tape::{fnv, Src};
 use redis_sim::redis::SDS;
-use redis_sim::replication::anti_entropy::{KeyDigest, StateDigest};
+use redis_sim::replication::anti_entropy::{AntiEntropyConfig, AntiEntropyManager, KeyDigest, StateDigest};
 use redis_sim::replication::lattice::ReplicaId;
 use redis_sim::replication::state::{ReplicatedValue, ReplicationDelta, ShardReplicaState};
 use redis_sim::replication::ConsistencyLevel;
@@ -31,7 +31,7 @@ impl Property for C18 {
     fn components_real(&self) -> Vec<&'static str> { vec!["replication::anti_entropy::{StateDigest::from_state, differs_from, divergent_buckets, KeyDigest::new, MerkleNode}", "AntiEntropyManager::get_keys_in_buckets", "simulator::multi_node::MultiNodeSimulation::run_anti_entropy_sync (the repo's own sync routine)", "ShardReplicaState::apply_remote_delta"] }
     fn components_stubbed(&self) -> Vec<&'static str> { vec!["no network: digests and deltas are handed over in memory, as the repo's routine does"] }
     fn assumptions(&self) -> Vec<&'static str> { vec!["'equal digests => equal states' is checked up to 64-bit hash collision, which cannot occur by chance at these sizes; 'equal states => equal digests' is exact"] }
-    fn required_probes(&self) -> Vec<&'static str> { vec!["bucket_with_2plus_keys", "equal_pair_checked", "unequal_pair_checked", "sync_needed_multiple_rounds", "both_sides_lack_updates"] }
+    fn required_probes(&self) -> Vec<&'static str> { vec!["bucket_with_2plus_keys", "equal_pair_checked", "unequal_pair_checked", "sync_needed_multiple_rounds", "both_sides_lack_updates", "manager_driven_exchange"] }
     fn runs(&self, tier: Tier) -> u64 { match tier { Tier::Quick => 25000, Tier::Thorough => 1000000 } }
 
     fn run(&self, src: &mut Src, ctx: &RunCtx) -> RunReport {
@@ -161,6 +161,67 @@ impl Property for C18 {
                 if e0.differs_from(&e1) && !ctx.known("C18/equal-states-differ/bucket-fold-order") {
                     rep.violate("C18/equal-states-differ/after-sync", "states are equal after sync but digests still differ: perpetual false 'divergent'".to_string());
                 }
+            }
+        }
+        // ---- the manager-driven exchange (digest -> sync request -> sync response), in both directions per
+        // round, across a restart of one peer: a fresh manager (generation back at 0), part of its state lost,
+        // one new write. Both sides must end with the merge of what they held, in finitely many rounds.
+        if rep.violations.iter().all(|v| ctx.known(&v.key)) && !differing.is_empty() {
+            let limit = *src.pick(&[1000usize, 1, 2, 5]);
+            let restart = src.chance(1, 2);
+            let cfg = AntiEntropyConfig { max_keys_per_sync: limit, merkle_tree_depth: depth, ..AntiEntropyConfig::default() };
+            let (ra, rb) = (ReplicaId::new(8), ReplicaId::new(9));
+            let mut sa = ShardReplicaState::new(ra, ConsistencyLevel::Eventual);
+            let mut sb = ShardReplicaState::new(rb, ConsistencyLevel::Eventual);
+            for d in &deltas { sa.apply_remote_delta(d.clone()); }
+            for (i, d) in deltas.iter().enumerate() { if !withheld.contains(&i) { sb.apply_remote_delta(d.clone()); } }
+            let mut ma = AntiEntropyManager::new(ra, cfg.clone());
+            let mut mb = AntiEntropyManager::new(rb, cfg.clone());
+            for _ in 0..(1 + src.below(4)) { mb.on_local_write(); }
+            let mut now = 0u64;
+            let mut phase = 0;
+            loop {
+                let want: BTreeMap<String, String> = { let mut w = BTreeMap::new(); for k in sa.replicated_keys.keys().chain(sb.replicated_keys.keys()) { let m = match (sa.replicated_keys.get(k), sb.replicated_keys.get(k)) { (Some(x), Some(y)) => x.merge(y), (Some(x), None) => x.clone(), (None, Some(y)) => y.clone(), _ => unreachable!() }; w.insert(k.clone(), proj_s(&m)); } w };
+                let nk = sa.replicated_keys.len().max(sb.replicated_keys.len());
+                let rounds_allowed = nk.div_ceil(limit.max(1)) * 2 + (1usize << depth.min(8)) + 4;
+                let mut rounds = 0; let mut synced = false;
+                while rounds < rounds_allowed {
+                    rounds += 1; now += 1000;
+                    for dir in 0..2 {
+                        let (ms, ss, mo, so) = if dir == 0 { (&mut ma, &mut sa, &mut mb, &sb) } else { (&mut mb, &mut sb, &mut ma, &sa) };
+                        let mine = ms.generate_digest(&ss.replicated_keys);
+                        let theirs = mo.generate_digest(&so.replicated_keys);
+                        let peer = theirs.replica_id;
+                        if let Some(buckets) = ms.process_peer_digest(theirs, &mine) {
+                            let req = ms.create_sync_request(peer, mine, Some(buckets), now);
+                            let resp = mo.handle_sync_request(req, &so.replicated_keys);
+                            for d in resp.deltas { ss.apply_remote_delta(d); }
+                        } else if proj_state(&ss.replicated_keys) != proj_state(&so.replicated_keys) {
+                            rep.violate("C18/manager/false-in-sync", format!("{} compares its digest with {}'s and sees no divergence although the states differ ({} vs {} keys; peer restarted: {})", if dir == 0 { "r8" } else { "r9" }, if dir == 0 { "r9" } else { "r8" }, ss.replicated_keys.len(), so.replicated_keys.len(), phase == 1));
+                        }
+                    }
+                    if !rep.violations.iter().all(|v| ctx.known(&v.key)) { break; }
+                    if proj_state(&sa.replicated_keys) == proj_state(&sb.replicated_keys) { synced = true; break; }
+                }
+                rep.evals += 1;
+                rep.probe("manager_driven_exchange");
+                if !rep.violations.iter().all(|v| ctx.known(&v.key)) { break; }
+                let (x, y) = (proj_state(&sa.replicated_keys), proj_state(&sb.replicated_keys));
+                if !synced {
+                    let stuck: Vec<&String> = x.keys().chain(y.keys()).collect::<BTreeSet<_>>().into_iter().filter(|k| x.get(*k) != y.get(*k)).collect();
+                    rep.violate("C18/manager/sync-never-completes", format!("after {} request/response rounds in both directions (max_keys_per_sync = {}, depth {}) the two replicas still differ on {:?}", rounds, limit, depth, stuck.iter().take(5).collect::<Vec<_>>()));
+                    break;
+                }
+                if x != want { let k = want.keys().find(|k| x.get(*k) != want.get(*k)).cloned().unwrap_or_default(); rep.violate("C18/manager/sync-result-not-merge", format!("after the exchange key {} is {} but the merge of the prior states is {}", k, x.get(&k).cloned().unwrap_or_default(), want.get(&k).cloned().unwrap_or_default())); break; }
+                if phase == 1 || !restart { break; }
+                // ---- r9 restarts: new manager, some of its keys gone, one new local write
+                phase = 1;
+                rep.fault("peer_restarted_with_partial_state");
+                let keep: Vec<(String, ReplicatedValue)> = { let mut ks: Vec<(String, ReplicatedValue)> = sb.replicated_keys.iter().map(|(k, v)| (k.clone(), v.clone())).collect(); ks.sort_by(|a, b| a.0.cmp(&b.0)); ks.into_iter().enumerate().filter(|(i, _)| i % 3 != 1).map(|(_, kv)| kv).collect() };
+                sb = ShardReplicaState::new(rb, ConsistencyLevel::Eventual);
+                for (k, v) in keep { sb.apply_remote_delta(ReplicationDelta::new(k, v, rb)); }
+                let _ = sb.record_write("fresh-after-restart".to_string(), SDS::from_str("new"), None);
+                mb = AntiEntropyManager::new(rb, cfg.clone());
             }
         }
         rep.nontrivial = crowded;
